@@ -1,6 +1,7 @@
 package main
 
 import (
+	"os"
 	"fmt"
 	"go/types"
 	"strings"
@@ -56,10 +57,17 @@ func (P *Prog) verifyFunction(fn *ssa.Function, spec *FuncSpec) (ru *Unit) {
 				u.Errors = append(u.Errors, vc.specErrors...)
 				return
 			}
-			panic(r)
+			if os.Getenv("GOVC_PANIC") != "" {
+				panic(r)
+			}
+			// an internal error of the generator on this function: the function cannot be decided (reported like a
+			// contract that no longer binds), the other functions still are
+			vc.specErrors = append(vc.specErrors, fmt.Sprintf("%s: internal error of the condition generator: %v", name, r))
+			u.Errors = append(u.Errors, vc.specErrors...)
 		}
 	}()
 	fr := vc.newFrame(fn, spec, nil)
+	vc.fn, vc.spec, vc.topFr = fn, spec, fr
 	st := &State{locals: map[*Cell]string{}, heaps: map[string]string{}, ghosts: map[string]string{}}
 	st.alloc = vc.fresh("alloc0", "Int")
 	vc.assume("(> " + st.alloc + " 0)")
@@ -114,6 +122,9 @@ func (P *Prog) verifyFunction(fn *ssa.Function, spec *FuncSpec) (ru *Unit) {
 			}
 		}
 	}
+	if P.replayPin != nil {
+		vc.replayPinInputs(fr, st, P.replayPin)
+	}
 	env := &Env{vc: vc, fr: fr, st: st, old: st, names: fr.names, hash: map[string]Val{}, paramsFirst: true}
 	if spec != nil {
 		for _, l := range spec.Lets {
@@ -143,6 +154,10 @@ func (P *Prog) verifyFunction(fn *ssa.Function, spec *FuncSpec) (ru *Unit) {
 		for _, r := range spec.Requires {
 			r := r
 			g := vc.safeTr(fr, func() string { return env.trBool(r.E) }, r.Src)
+			if vc.replayMode {
+				// replay: the requires clause must be PROVED on the concrete input
+				vc.oblige(fmt.Sprintf("%s/replay-pre#%d", name, len(vc.obls)+1), "replay-pre", nil, "true", g, r.Src)
+			}
 			vc.assume(g)
 			if r.Free {
 				vc.trusted["free requires of "+name+": "+r.Src] = true
@@ -186,6 +201,11 @@ func (P *Prog) verifyFunction(fn *ssa.Function, spec *FuncSpec) (ru *Unit) {
 			d := vc.safeTr(fr, func() string { s, _ := env.tr(spec.Decreases); return s }, "decreases")
 			fr.decEntry = vc.define("dec_entry", "Int", d)
 		}
+	}
+	if P.replayPin != nil {
+		vc.replayBody(fr, st, P.replayPin)
+		u.Errors = append(u.Errors, vc.specErrors...)
+		return u
 	}
 	vc.ghostPoint(fr, st, "true", "at", "entry", 1, "")
 	vc.execBody(fr, st, "true")
